@@ -1,3 +1,14 @@
+def classify(case):
+    """Known finding F23: the signer certificate's curve differs from the curve of the key handed to Sign/SignWith."""
+    d = case.get("case", case) if isinstance(case, dict) else None
+    if not isinstance(d, dict) or d.get("op") != "sign":
+        return None
+    signer = d.get("signer")
+    if isinstance(signer, dict) and "curve" in signer and "key_curve" in d and signer["curve"] != d["key_curve"]:
+        return "signer-curve-mismatch"
+    return None
+
+
 SPEC = {
     "title": "Issuance never exceeds the signing CA",
     "design_ref": "DESIGN.md section 4, C04",
@@ -16,8 +27,9 @@ SPEC = {
     "level_note": "Trusted: Coq kernel; the hand-written model (mirrors the order of guards of SignWith, checkCAConstraints, certificateV1/V2.validate); "
                   "the harness and its translation of certificates; signatures and SHA-256 are oracles. 'The private key is the signer's own' is a "
                   "hypothesis of C04_sign_implies_verify: SignWith compares the key's curve with the request, not with the signer certificate "
-                  "(C04_foreign_key_witness); nebula-cert enforces it with VerifyPrivateKey. SignWith does not require the signer to be a CA; such "
+                  "(C04_signer_curve_refuted = known finding F23, reproduced on the code by the corpus cases of kind signer-curve-mismatch and reported as KNOWN-FINDING); nebula-cert enforces it with VerifyPrivateKey. SignWith does not require the signer to be a CA; such "
                   "certificates name an issuer no pool can hold (AddCA refuses non-CAs). The correspondence is differential testing.",
+    "classify": classify,
     "gens": ["gen_certsign"],
     "build_comp": "certsign",
     "props": ["props/C04.v"],
